@@ -65,14 +65,32 @@ PROPS["C18"] = {
 
 PROPS["C20"] = {
     "explanation": "Bounded symbolic execution (gosx) of the real device.CompareFiles -> getRealDevice, loadSpoc, ParseConfig (cisco: lookupCmd, matchCmd, postprocessParsed, postprocessACLParts, checkReferences; linux: parseIPTables, parseRoutes), MergeSpoc and GetChanges on the repository's own test configurations in which one line is replaced by a solver-chosen member of the property's mutation family (word-prefix truncations, single-token deletions, duplications, swaps, indentation changes). Any Go run-time panic that is not errlog's bailout, and any exit status other than 0/1, is a violation; each is replayed natively.",
-    "bounds": {"quick": "ASA, IOS and Linux file-compare cases of go/testdata (files of at most 60 lines), every 12th (case, file, line) triple (offset = VERIF_SEED mod 12), up to 63 mutations per line, both argument positions (device file, Netspoc code, raw, ipv6)",
+    "bounds": {"quick": "ASA, IOS and Linux file-compare cases of go/testdata (files of at most 60 lines): one representative line per kind (model, argument position, indentation, first three words, word count), every 2nd of them (offset = VERIF_SEED mod 2), up to 63 mutations per line, both argument positions (device file, Netspoc code, raw, ipv6)",
                "thorough": "every (case, file, line) triple"},
     "outside": "NSX (JSON) and PAN-OS (XML) inputs at byte level, info file and status file contents, do-approve and missing-approve front ends, hangs (step budget only), mutations of more than one line at a time",
     "selftest": "asa_raw|ios_raw|linux_raw", "selftest_thorough": "asa_|ios_|linux",
     "runs": [
         {"entry": M + "/pkg/device.VerifMutateLine", "needs_cases": True,
-         "quick": {"stride": "12"}, "thorough": {"stride": "1"},
+         "quick": {"dedupe": "1", "stride": "2"}, "thorough": {"stride": "1"},
          "extra": {"maxpaths": 2000000},
          "covers": ["input rejected with exit status 1", "input accepted", "targets selected"]},
     ],
 }
+
+PROPS["C05"] = {
+    "explanation": "Bounded symbolic execution (gosx) of the real linux.parseRoutes, diffRoutes, (*State).parseIPTables, normalizeIPTables, diffIPTables, getIPTablesConfig. Routes: all pairs of route sets over 4 destinations x 3 hops in the device's and Netspoc's spellings; the emitted add/del commands are executed on a route-set model; end state must be exactly the target, no add of an active / del of an inactive route, second compare silent. iptables: abstract rules (solver-chosen fields) are rendered in Netspoc spelling and in iptables-save spelling with solver-chosen spelling variants; 'unchanged' must be reported exactly for equal abstract rulesets, the restore file must equal the target, the target must compare equal to its own kernel spelling.",
+    "bounds": {"quick": "routes: n,m<=2 per side; iptables: one table, chain INPUT, <=1 rule per side",
+               "thorough": "routes: n,m<=3; iptables: <=2 rules per side"},
+    "outside": "IPv6 tables, several tables/chains with different contents, spellings outside the menus (xmark/mark, log-level, syn flags), 'ip route' attributes other than via/dev, ApplyCommands dialogue (see C09)",
+    "selftest": "linux", "selftest_thorough": "linux",
+    "runs": [
+        {"entry": M + "/pkg/linux.VerifRoutes", "quick": {"N": "2"}, "thorough": {"N": "3"},
+         "classes": ["C05"], "covers": ["replace in one transaction", "kernel/link-scope route on device", "no change reported"]},
+        {"entry": M + "/pkg/linux.VerifIPTables", "quick": {"N": "1"}, "thorough": {"N": "2"},
+         "covers": ["iptables reported as unchanged", "iptables difference reported"]},
+    ],
+}
+PROPS["C14"]["runs"] = PROPS["C14"]["runs"] + [
+    {"entry": M + "/pkg/linux.VerifRoutes", "quick": {"N": "2"}, "thorough": {"N": "3"}, "classes": ["C14"]},
+]
+PROPS["C14"]["bounds"] = {"quick": PROPS["C02"]["bounds"]["quick"] + "; Linux routes n,m<=2", "thorough": PROPS["C02"]["bounds"]["thorough"] + "; Linux routes n,m<=3"}
